@@ -776,6 +776,14 @@ impl IdlArcSqliteWriteTransaction<'_> {
                 // Update allids since we cleared them and need to reset it in the cache.
                 std::mem::swap(self.allids.deref_mut(), &mut ids);
             })
+            // The cached max id has to follow the rows that were just written. Without this
+            // an entry created later in the same process (the migrations that run at the
+            // end of a restore) is numbered from the stale value and overwrites a restored
+            // entry.
+            .and_then(|()| self.db.get_id2entry_max_id())
+            .map(|mid| {
+                *self.maxid = mid;
+            })
     }
 
     pub fn delete_identry<I>(&mut self, mut idl: I) -> Result<(), OperationError>
